@@ -1,5 +1,6 @@
 import SuppModel.Drv.Util
 import SuppModel.Flow.Memo
+import SuppModel.Flow.Checked
 
 namespace SuppModel.Drv.Flow
 open Lean SuppModel.Flow SuppModel.Drv
@@ -81,8 +82,14 @@ def handle (j : Json) : Json :=
           (jarr j "orders").bind (·.toList.mapM (fun o => do let a ← o.getArr?; a.toList.mapM (·.getNat?))) with
     | .ok g, .ok qs, .ok orders =>
       let qa := qs.toArray
-      Json.mkObj [("answers", Json.arr (orders.map (fun o =>
-        Json.arr ((runQueries g g.fuel {} (o.filterMap (fun i => qa[i]?))).map answerJson).toArray)).toArray)]
+      let full := (j.getObjVal? "validate").isOk
+      let run (f : List Query → List (Option (Option Val))) : Json :=
+        Json.arr (orders.map (fun o => Json.arr ((f (o.filterMap (fun i => qa[i]?))).map answerJson).toArray)).toArray
+      Json.mkObj ([("answers", run (runQueries g g.fuel {}))] ++
+        (if full then
+          [("checked", run (runQueriesChecked g g.fuel {})),     -- hypothesis of C04_history_partial
+           ("exact", run (runQueriesExact g (4 * g.fuel) {}))]    -- reference of C04_history_validated
+         else []))
     | .error e, _, _ => errJson e
     | _, .error e, _ => errJson e
     | _, _, .error e => errJson e
